@@ -463,11 +463,21 @@ impl Ranking {
         let staged = cx.rng.chance(1, 4);
         let st = if staged { build_staged(cx, lang, &recs, limit, "") } else { St::build_sentinel(lang, &recs, limit) };
         let unl = St::build_sentinel(lang, &recs, n + 1);
+        let other: Option<St> = if cx.rng.chance(1, 3) {
+            cx.count("stores shadowed by a store of another language on the same thread");
+            Some(St::build_sentinel(LANGS[((cx.idx + 5) % NL) as usize], &recs, limit))
+        } else {
+            None
+        };
         for qk in 0..3 {
             let q = if similar { similar_query(&mut cx.rng, lang, &family) } else { rank_query(&mut cx.rng, lang, &st.store.lang, &recs) };
             // a store with a past is asked the empty query first (the list its past searches may have cached)
             let q = if staged && qk == 0 { String::new() } else { q };
             cx.ctx(format!("C07 lang={} recs={:?} limit={} q={:?}", lang, recs, limit, q));
+            if let Some(o) = &other {
+                // the same records and query under another language, on this thread, right before the judged search
+                let _ = o.search(&q);
+            }
             let base = st.search(&q);
             let all = unl.search(&q);
             let apart = cx.rng.chance(1, 8);
@@ -494,6 +504,9 @@ impl Ranking {
                     let rj = recs.iter().find(|r| r.0 == all[j].0).unwrap().clone();
                     for ord in 0..2 {
                         let two = if ord == 0 { vec![ri.clone(), rj.clone()] } else { vec![rj.clone(), ri.clone()] };
+                        if let Some(o) = &other {
+                            let _ = o.search(&q);
+                        }
                         let h: Vec<usize> = if apart {
                             let (t2, q2) = (two.clone(), q.clone());
                             on_new_thread(move || St::build_sentinel(lang, &t2, 10).search_ids(&q2))
@@ -919,6 +932,9 @@ impl Ranking {
 
 /// Single-word function words (frozen list, DESIGN.md Appendix A).
 pub fn function_words(lang: &str) -> Vec<&'static str> {
+    if lang == "xd" {
+        return function_words("de").into_iter().filter(|w| !w.contains('ß')).collect();
+    }
     match base_lang(lang) {
         "en" => vec!["a", "an", "the", "to", "of", "in", "for", "and", "on", "at", "by", "or", "as", "if", "so", "from", "into", "but", "not"],
         "de" => vec!["der", "die", "das", "für", "zu", "an", "auf", "und", "mit", "in", "ja", "bloß", "während"],
@@ -959,7 +975,7 @@ impl Prop for Ranking {
     fn floors(&self) -> Vec<(&'static str, u64, u64)> {
         match self.0 {
             Which::Verdicts => vec![("truncated (more matches than limit)", 200, 2000), ("beyond the 10x cap (soundness only)", 100, 1000), ("limit 0", 50, 500), ("selection buffer refilled (matches >= 2*limit)", 100, 1000), ("store with tied ratings (set comparison)", 50, 500), ("empty query", 50, 500), ("corpus-store searches", 100, 2000), ("corpus-store searches compared with the unlimited corpus store", 10, 200), ("large stores (limit 50-200)", 400, 8000), ("large stores whose match count is an exact multiple of the limit", 20, 400), ("stores of more than 2048 records", 8, 160), ("stores of 66-260 records", 300, 3000), ("stores built in stages with searches and limit changes in between", 3000, 30000), ("configurations whose reference stores live on threads of their own", 1500, 15000), ("stores of 33 000 - 140 000 records with one title", 8, 48)],
-            Which::Order => vec![("pair stores", 2000, 20000), ("permuted stores", 2000, 20000), ("searches with >= 2 hits", 300, 3000), ("truncated lists compared across permutations", 30, 300), ("stores of similar words", 500, 5000), ("pairs involving a hit ranked 7th or lower", 300, 3000), ("large stores (limit 50-200)", 200, 4000), ("stores of more than 2048 records", 4, 80), ("stores with ratings in [2^31, 2^32)", 200, 2000), ("stores with ratings spread over the whole usize range", 100, 1000), ("configurations whose reference stores live on threads of their own", 200, 2000), ("stores built in stages with searches and limit changes in between", 300, 3000)],
+            Which::Order => vec![("pair stores", 2000, 20000), ("permuted stores", 2000, 20000), ("searches with >= 2 hits", 300, 3000), ("truncated lists compared across permutations", 30, 300), ("stores of similar words", 500, 5000), ("pairs involving a hit ranked 7th or lower", 300, 3000), ("large stores (limit 50-200)", 200, 4000), ("stores of more than 2048 records", 4, 80), ("stores with ratings in [2^31, 2^32)", 200, 2000), ("stores with ratings spread over the whole usize range", 100, 1000), ("configurations whose reference stores live on threads of their own", 200, 2000), ("stores built in stages with searches and limit changes in between", 300, 3000), ("stores shadowed by a store of another language on the same thread", 500, 5000)],
             Which::Rules => vec![("rule exact>typo", 500, 5000), ("rule both>one", 500, 5000), ("rule prefix: exact>tail", 500, 5000), ("rule adjacent>gap", 500, 5000), ("rule first>second", 500, 5000), ("rule identical titles: rating decides", 300, 3000), ("rule equal rating: shorter title first", 300, 3000), ("rule function word: content word first", 1000, 10000), ("u made of two function words run together", 300, 3000), ("rule cases with a third, unrelated record", 20000, 200000), ("identical titles with ratings 1-3 apart", 1000, 10000), ("tails of 13-70 letters", 500, 5000), ("u tagged with a part of speech that is not a function-word kind", 150, 1500)],
             Which::Empty => vec![("searches after further adds", 1000, 10000), ("truncated lists with tied ratings", 500, 5000), ("stores with distinct ratings", 500, 5000), ("limit 0", 100, 1000), ("stores of 13-60 records", 1000, 10000), ("stores whose titles share a prefix of 20-40 characters", 1500, 15000), ("stores with adjacent ratings above 2^24", 1000, 10000), ("searches after a limit change", 1000, 10000), ("adds under a temporarily lowered limit", 1000, 10000), ("empty-query searches right after a search with words", 5000, 50000)],
         }
